@@ -71,3 +71,44 @@ example : tailRemovalsOnly init [.add .error, .add .warning, .removeError 0] = f
 example : (run init [.add .error, .add .warning, .removeError 0]).map (fun s => (warningAt s 0).bind (s.issues[·]?)) = some none := by decide
 
 end Cellml.Props.C15
+
+namespace Cellml.Props.C15
+open Cellml.Logger
+
+/-! ### indices within and past the range, for all three levels -/
+
+/-- C15-3c: an index within range returns a real issue (not null) and that issue has the level asked for -/
+theorem C15_error_in_range (s : LState) (h : Coherent s) (i : Nat) (hi : i < errorCount s) :
+    ∃ p, errorAt s i = some p ∧ s.issues[p]? = some Level.error := by
+  unfold errorCount at hi
+  refine ⟨s.errs[i], by simp [errorAt, hi], ?_⟩
+  have hm : s.errs[i] ∈ idx .error s.issues := by rw [← h.1]; exact List.getElem_mem hi
+  exact (mem_idx _ _ _).mp hm
+
+theorem C15_warning_in_range (s : LState) (h : Coherent s) (i : Nat) (hi : i < warningCount s) :
+    ∃ p, warningAt s i = some p ∧ s.issues[p]? = some Level.warning := by
+  unfold warningCount at hi
+  refine ⟨s.warns[i], by simp [warningAt, hi], ?_⟩
+  have hm : s.warns[i] ∈ idx .warning s.issues := by rw [← h.2.1]; exact List.getElem_mem hi
+  exact (mem_idx _ _ _).mp hm
+
+theorem C15_message_in_range (s : LState) (h : Coherent s) (i : Nat) (hi : i < messageCount s) :
+    ∃ p, messageAt s i = some p ∧ s.issues[p]? = some Level.message := by
+  unfold messageCount at hi
+  refine ⟨s.msgs[i], by simp [messageAt, hi], ?_⟩
+  have hm : s.msgs[i] ∈ idx .message s.issues := by rw [← h.2.2]; exact List.getElem_mem hi
+  exact (mem_idx _ _ _).mp hm
+
+theorem C15_warning_out_of_range (s : LState) (i : Nat) (h : warningCount s ≤ i) : warningAt s i = none := by
+  unfold warningAt warningCount at *; simp; omega
+
+theorem C15_message_out_of_range (s : LState) (i : Nat) (h : messageCount s ≤ i) : messageAt s i = none := by
+  unfold messageAt messageCount at *; simp; omega
+
+/-- C15-3d: no issue is reported at two indices of one level (the per-level lists have no duplicates) -/
+theorem C15_no_issue_twice (s : LState) (h : Coherent s) : s.errs.Nodup ∧ s.warns.Nodup ∧ s.msgs.Nodup := by
+  obtain ⟨h1, h2, h3⟩ := h
+  rw [h1, h2, h3]
+  exact ⟨idx_nodup _ _, idx_nodup _ _, idx_nodup _ _⟩
+
+end Cellml.Props.C15
